@@ -119,7 +119,7 @@ class Gen:
         rng = self.rng
         r = rng.random()
         if r < 0.12 and L > 0:
-            cap = rng.choice([0, L - 1, L // 2, max(0, L - 5)])
+            cap = rng.choice([0, L - 1, L - 1, L // 2, L // 2, max(0, L - 5), max(0, L - 5)])
         elif r < 0.5:
             cap = L
         elif r < 0.75:
@@ -152,7 +152,7 @@ class Gen:
             if msgs and rng.random() < 0.5:
                 m0 = rng.choice(msgs)
                 src, dst, ci = m0["src"], m0["dst"], m0["ci"]
-            self.mid += 1 + rng.randrange(3)
+            self.mid += 1
             msgs.append({"mid": self.mid, "src": src, "dst": dst, "ci": ci, "tag": rng.choice(tags), "len": rng.choice(lens)})
         return msgs
 
@@ -274,8 +274,6 @@ class Gen:
         pk = self.phase_kind()
         lp = "small" if pk == "ssmall" else pk
         msgs = self.gen_messages(rng.randint(1, self.maxmsg), lp, True)
-        for p in range(self.np):              # send order per sender = order in msgs restricted to p (shuffled globally first)
-            pass
         rng.shuffle(msgs)
         recvs = self.plan_receives(msgs, False)
         slots = {r: [] for r in range(self.np)}
